@@ -666,6 +666,44 @@ Snap<T> snapOf(const bspline::Spline<T, o> &s) {
   return r;
 }
 
+// --------------------------------------------- predicates on near-misses
+// C15 on pairs that differ in exactly one coefficient (any position, incl. the
+// highest power of the last interval) and on splines with exactly one
+// non-zero coefficient. Returns a description of the first lie, or "".
+template <typename T, size_t o>
+inline std::string predicateNearMisses(const bspline::Spline<T, o> &a, Rng &g) {
+  using bspline::Spline;
+  const size_t ni = a.getCoefficients().size();
+  if (ni == 0) return "";
+  auto cs = a.getCoefficients();
+  // positions: random, and the very last coefficient
+  for (int round = 0; round < 2; round++) {
+    const size_t j = round ? ni - 1 : g.below(ni);
+    const size_t k = round ? o : g.below(o + 1);
+    auto mod = cs;
+    mod[j][k] = mod[j][k] + mk<T>(R(1));
+    const Spline<T, o> b(a.getSupport(), mod);
+    if (a == b || !(a != b) || b == a)
+      return "a == b although coefficient [" + std::to_string(j) + "][" +
+             std::to_string(k) + "] differs";
+    // exactly one non-zero coefficient
+    auto one = cs;
+    for (auto &row : one)
+      for (auto &x : row) x = mk<T>(R(0));
+    const Spline<T, o> z(a.getSupport(), one);
+    if (!z.isZero()) return "isZero() false for all-zero coefficients";
+    one[j][k] = mk<T>(R(-3));
+    const Spline<T, o> nz(a.getSupport(), one);
+    if (nz.isZero())
+      return "isZero() true although coefficient [" + std::to_string(j) + "][" +
+             std::to_string(k) + "] is non-zero";
+    if (nz == z || !(nz != z)) return "single non-zero coefficient compares equal to zero";
+  }
+  const Spline<T, o> copy(a);
+  if (!(copy == a) || copy != a) return "copy != original";
+  return "";
+}
+
 // --------------------------------------------------------------- rendering
 inline std::string winStr(const Win &w) {
   return "(" + std::to_string(w.start) + "," + std::to_string(w.end) + ")";
